@@ -1576,3 +1576,22 @@ def pow_large_lines(rng, fmts, per, modes=("E", "A")):
                 yv = t / math.log(xv)
                 lines.append("pow %s %s %s" % (s, nearest_tok(s, xv, 0), nearest_tok(s, abs(yv), 1 if yv < 0 else 0)))
     return lines
+
+
+def misc_lines(rng, n):
+    """the public glue that no arithmetic stream touches: `Display for Semantics`, `RoundingMode::as_string`, `get_decimal_accuracy`
+    (every precision up to 1100, then scattered ones), `BigInt::pseudorandom(parts, seed)` (the 32-bit LFSR of utils.rs:
+    zero parts, one word, many words; seeds 0, all-ones, single bits, random), `BigInt::default`"""
+    lines = ["misc default"]
+    for P in range(2, 1100):
+        E = next(e for e in range(2, 40) if P <= 2 ** (e - 1) - 2) if P > 2 else 2
+        lines.append("misc sem %d,%d,%s" % (rng.choice([E, E + 1, 20, 30]), P, MODES[P % 6]))
+    for _ in range(n):
+        lines.append("misc sem %d,%d,%s" % (rng.randrange(2, 40), rng.choice([rng.randrange(2, 5000), rng.randrange(2, 10 ** 6)]), rng.choice(MODES)))
+    seeds = [0, 1, 2 ** 32 - 1, 0x13371337, 0x13371336, 2 ** 31] + [1 << k for k in range(0, 32, 3)]
+    for sd in seeds:
+        for parts in (0, 1, 2, 3, 17):
+            lines.append("misc prand %d %d" % (parts, sd))
+    for _ in range(n):
+        lines.append("misc prand %d %d" % (rng.choice([0, 1, 2, 4, 5, 8, rng.randrange(0, 80)]), rng.getrandbits(32)))
+    return lines
